@@ -40,6 +40,8 @@ def _worker(task):
     for c in cs:
         reg.add(c)
     todo = [c for c in cs if not c.assumed]
+    if tier == "quick" and getattr(pack, "QUICK_SKIP_BOUNDED", False):
+        todo = [c for c in todo if not getattr(c, "bounded", "")]
     c = todo[idx]
     kw = getattr(pack, "EXECUTOR_KW", {}).get(c.target, None)
     timeout = 60000 if tier == "thorough" else None
@@ -108,6 +110,10 @@ def main(argv=None):
     reg0 = Registry()
     cs0 = pack.contracts(reg0)
     todo = [c for c in cs0 if not c.assumed]
+    skipped_bounded = []
+    if tier == "quick" and getattr(pack, "QUICK_SKIP_BOUNDED", False):
+        skipped_bounded = [c.target for c in todo if getattr(c, "bounded", "")]
+        todo = [c for c in todo if not getattr(c, "bounded", "")]
     assumed = [c for c in cs0 if c.assumed]
     n_lem = len(pack.lemmas()) if hasattr(pack, "lemmas") else 0
     n_extra = len(getattr(pack, "EXTRA", []))
@@ -205,7 +211,7 @@ def main(argv=None):
         lock = lock_all[prop]
 
     missing = [oid for oid in lock if oid not in by_id]
-    missing_fn_prefixes = [u["obligation"] for u in undecided] + [o.get("function", "") for o in obligations if o.get("kind") == "out-of-subset"]
+    missing_fn_prefixes = list(skipped_bounded) + [u["obligation"] for u in undecided] + [o.get("function", "") for o in obligations if o.get("kind") == "out-of-subset"]
     really_missing = []
     for oid in missing:
         if "/call-pre#" in oid:
@@ -313,6 +319,7 @@ def main(argv=None):
             "samples": samples,
             "functions_under_contract": fn_infos,
             "assumed_contracts": sorted({c.target for c in assumed} | assumed_used | set(getattr(pack, "ASSUMED_MODELS", []))),
+            "bounded_functions_run_in_thorough_tier_only": skipped_bounded,
             "by_backend_vcs": by_backend,
             "second_solver_cross_check": cross,
             "solver_seconds": solver_seconds,
